@@ -8,7 +8,7 @@
    has an unspecified capacity, given to the model by the caller ([cap0] of the operations that
    instantiate it).  io.Reader / io.Writer driven variants (ReadFrom / WriteTo) are not used by
    the proxy and are not modelled. *)
-From RcProxy Require Import Base.Bytes.
+From RcProxy Require Import Base.Bytes Gen.Generated.
 From Coq Require Import Arith.
 Local Open Scope nat_scope.
 
@@ -21,8 +21,9 @@ Fixpoint pow2_ge (fuel : nat) (p n : nat) : nat :=
 Definition ceil_pow2 (n : nat) : nat := if n <=? 2 then 2 else pow2_ge 64 2 n.
 
 (* ---------- ring.Buffer ---------- *)
-Definition DefaultBufferSize := 1024.
-Definition bufferGrowThreshold := 4096.
+(* the two constants are copied from ring_buffer.go by the translator on every run *)
+Definition DefaultBufferSize := N.to_nat ring_DefaultBufferSize.
+Definition bufferGrowThreshold := N.to_nat ring_bufferGrowThreshold.
 
 Record ring := { rg_buf : bytes; rg_size : nat; rg_r : nat; rg_w : nat; rg_empty : bool }.
 
